@@ -93,8 +93,8 @@ pub fn c11(tier: &str) -> i32 {
             let (d, m, b) = match (quick, has_m) {
                 (true, false) => (if p == 0 { 4 } else { 3 }, 1, 0),
                 (true, true) => (2, 1, 1),
-                (false, false) => (if p == 0 { 6 } else { 4 }, 2, 1),
-                (false, true) => (3, 1, 1),
+                (false, false) => (if p == 0 { 5 } else if p % 2 == 1 { 4 } else { 3 }, 1, if p % 2 == 1 { 0 } else { 1 }),
+                (false, true) => (2, 1, 1),
             };
             let opts = Opts { max_depth: d, max_memo: m, dev_budget: b, ref_in_key: false, frame: FrameSel::Both, ..Opts::default() };
             let t0 = std::time::Instant::now();
